@@ -3,7 +3,6 @@ bin/gen-manifest turns this into MANIFEST.json."""
 
 NOT_APPLICABLE = {
     "C18": "reachability of stored tree nodes from the current root over all histories is a property of runtime data, not of code shape",
-    "C23": "soundness relates the comparison verdict to validity of all payloads under two schemas; semantic, no structural necessary condition",
     "C38": "soundness of analyser output against all executions on all ledger states is semantic",
     "C42": "proportionality and per-epoch emission bounds are arithmetic over histories; the stake-sorted index is value-level",
     "C46": "semantic equivalence of two WASM programs (before/after instrumentation)",
@@ -284,3 +283,10 @@ claim("C17", "variant-arm agreement and argument origins in the three state-tree
       "and Delete None, a Reset records the old subtree stale and empties the tier root before the new leaves are generated, new_leaf hashes exactly "
       "the value it is given; a partition's leaf is the root hash returned by its substate tier and an entity's leaf the root returned by its "
       "partition tier, unchanged. Equality with an independent sparse-Merkle commitment, batching independence and the jellyfish algorithm are not decided.")
+
+claim("C23", "exhaustive kind match + dominance of the accepting exit by a same-kind test; verdict-table agreement for validation changes",
+      "Decides the rejecting-path clause only: compare_type_kind_internal matches all 18 base kinds with no catch-all, its accepting exit is "
+      "reachable only after the compared kind was tested equal to / destructured as the base kind, every arm can reach with_mismatch_error; "
+      "the validation verdict table is Unchanged->valid, Strengthened->invalid, Incomparable->invalid, Weakened->allow_validation_weakening and "
+      "an invalid change records an error; every SchemaComparisonErrorDetail variant is produced. That a reported equality/extension implies "
+      "the payload-set relation (soundness proper) is semantic and not decided.", level="other")
